@@ -29,6 +29,15 @@ type part struct {
 	Title  string // sheet name / chapter title
 	State  int
 	InManifest bool // decoys: listed in the manifest (EPUB) / rels (OOXML) but not declared
+
+	SheetID int // xlsx: the sheetId attribute (an identifier, unrelated to the position)
+
+	// pptx: the slide's speaker notes, a separate part reached through the slide's own
+	// relationship part (<dir>/_rels/<base>.rels, Type .../notesSlide). NotesTok is the
+	// unique token inside the notes text ("" = the slide has no readable notes).
+	NotesTok  string
+	NotesName string // ZIP member name of the notes part
+	NotesRef  string // Target exactly as written in the slide's relationship part
 }
 
 // mdoc is the harness's record of what it wrote into one member; it becomes
